@@ -82,7 +82,10 @@ type Object struct {
 	Unmodelled bool       // slice of aggregates whose contents are not modelled: loads give fresh values
 	ElemType   types.Type // element type of an unmodelled slice
 	UFrom      *Object    // option functional-nested-slices: the (root) unmodelled slice of slices this inner slice was read from
-	UFun       *UFun      // ... and, when it is a slice of slices itself, the functions that stand for its rows
+	URowOf     *Object    // ... the slice it is a row of (the root, or a row of the root), the index it was read at, and the version
+	URowIdx    *Term
+	UVer       int
+	UFun       *UFun // ... and, when it is a slice of slices itself, the functions that stand for its rows
 	Root       string
 }
 
